@@ -61,4 +61,19 @@ PROPS = {
     not_decided=['byte-exact array encoding (dtype, layout, msgpack ext types): NumPy/msgpack behaviour',
                  'struct.dataclass and FrozenDict handlers (to be added)'],
   ),
+  'C17': dict(
+    modules=['specs.train_state', 'specs.metrics'],
+    bounded=['bounded.c17_metrics'],
+    trusted_base=COMMON_TB,
+    assumptions=[
+      'optax is opaque: tx.update / tx.init / optax.apply_updates are uninterpreted functions; the contracts are term equalities',
+      'struct.dataclass replace(**changes) / cls(**fields): new instance with exactly the named fields changed; **kwargs land in the remaining fields',
+      'nnx.state(model, wrt) returns the Variables selected by wrt; nnx.update and _update_opt_state are recorded external effects (their own behaviour is not verified here)',
+      'machine arithmetic treated as mathematical: floats are reals, int32 counters are integers (the bounded stand-in exercises float32/int32 on concrete streams)',
+      'a batch is observed through its moments: size >= 1, sum, sum of squares; values.mean() = sum/size, values.var() = sumsq/size - mean^2',
+      'jax.tree_util.tree_map / jax.tree.map applied to an arbitrary function returns an unconstrained tree',
+    ],
+    not_decided=['Accuracy.update (argmax / threshold on arrays)', 'MultiMetric dispatch (getattr-based; covered by the bounded stand-in only)',
+                 'Optimizer.__init__ / _wrap_optimizer_state (jax.tree.map over Variables)'],
+  ),
 }
